@@ -24,7 +24,9 @@ def load_prop(pid):
 # a stub for something the real object has and the stub lacks is outside the harness, not a violation
 STUB_CLASSES = ("Rec", "Stub", "Loc", "TD", "Tok", "WStr",
                 # C16: recorder terms, recorded XML tree / generator, module stand-ins, result record, stream
-                "RecTerm", "RecURI", "RecLit", "RecBNode", "RecGen", "El", "_EtreeShim", "_JsonShim", "_Res", "_Stream", "_RecLit", "_RdflibShim")
+                "RecTerm", "RecURI", "RecLit", "RecBNode", "RecGen", "El", "_EtreeShim", "_JsonShim", "_Res", "_Stream", "_RecLit", "_RdflibShim",
+                # C06: recording graph / dataset / store stand-ins, JSON line, source, output
+                "StubDS", "StubCG", "StubCtx", "StubStore", "_Line", "_Json", "_Source", "_Out")
 
 
 class HarnessLimit(Exception):
@@ -42,6 +44,11 @@ def _stub_limit(e):
         # k-eq-numeric / k-literal-eq build Literal instances without the constructor and fill the private slots by name:
         # a renamed slot is a limit of the harness
         return bool(m and m.group(1) == "Literal" and m.group(2).startswith("_"))
+    if isinstance(e, TypeError):
+        # "object of type 'RecLit' has no len()", "'RecLit' object is not subscriptable", "unsupported operand type(s) for +: 'RecURI' and
+        # 'str'", ...: an operation the real (str-based) object supports and the stand-in does not
+        import re
+        return any(n in STUB_CLASSES for n in re.findall(r"'(\w+)'", str(e)))
     return False
 
 
